@@ -399,7 +399,35 @@ func (f *Frame) execAssign(lhs, rhs []ast.Expr, tok token.Token, st *State, pos 
 			f.assignOrDefine(lhs[1], Sc{has}, tok, st)
 			return normal(st)
 		case *ast.TypeAssertExpr:
-			in.unsupported(pos, "comma-ok type assertion")
+			// v, ok := x.(I) with I an interface type: the dynamic value is kept when ok (an
+			// arbitrary verdict: dynamic types are not modelled), nil otherwise
+			tt := f.typeOf(r.Type)
+			if _, isIface := tt.Underlying().(*types.Interface); !isIface || r.Type == nil {
+				in.unsupported(pos, "comma-ok type assertion to a concrete type")
+			}
+			xv := f.evalExpr(r.X, st)
+			ok := in.D.fresh("assert_ok", SBool)
+			var v Val
+			switch b := xv.(type) {
+			case PtrV:
+				st.assume(Implies(ok, Not(b.Nil)))
+				v = PtrV{To: b.To, Nil: Or(Not(ok), b.Nil)}
+			case Sc:
+				in.D.declareSort("Iface")
+				in.D.declareOnce("iface_nil", "(declare-const iface_nil Iface)")
+				nilT := Term{S: "iface_nil", Sort: "Iface"}
+				if b.T.Sort != "Iface" {
+					in.unsupported(pos, "comma-ok type assertion on a %s value", b.T.Sort)
+				}
+				st.assume(Implies(ok, Not(Eq(b.T, nilT))))
+				v = Sc{Ite(ok, b.T, nilT)}
+			default:
+				in.unsupported(pos, "comma-ok type assertion on %T", xv)
+			}
+			in.note("interface-to-interface type assertion: arbitrary verdict, value kept when it succeeds")
+			f.assignOrDefine(lhs[0], v, tok, st)
+			f.assignOrDefine(lhs[1], Sc{ok}, tok, st)
+			return normal(st)
 		}
 		in.unsupported(pos, "tuple assignment from %T", rhs[0])
 	}
